@@ -165,7 +165,9 @@ def build_harness(name, sources, variant="asan", wraps=(), extra_cflags=(), extr
     os.makedirs(out, exist_ok=True)
     exe = os.path.join(out, name)
     srcs = [s if os.path.isabs(s) else os.path.join(VERIF, "harness", s) for s in sources]
-    deps = srcs + [os.path.join(bdir, ".verif_stamp")] + glob.glob(os.path.join(VERIF, "harness", "*.h"))
+    # every file of harness/ is a dependency (harness sources #include one another)
+    deps = srcs + [os.path.join(bdir, ".verif_stamp")] + sorted(
+        f for f in glob.glob(os.path.join(VERIF, "harness", "*.[ch]")) if f not in srcs)
     key = hashlib.sha1()
     for d in deps:
         key.update(open(d, "rb").read())
